@@ -177,7 +177,7 @@ VARIANTS = [
     V("c07-fish-literals-inside-quotes", [("src/fish.rs", """r#"    set {scope_patch}literals {literals}"#""", """r#"    set {scope_patch}literals "{literals}""#""")], {"C07": "QCTX:fish::write_literals"}),
     V("c07-bash-rename-shell-var-benign", [("src/bash.rs", "local literal=${{literals[$literal_id]}}\n                if [[ $subword == \"$literal\" && -v", "local lit=${{literals[$literal_id]}}\n                local literal=$lit\n                if [[ $subword == \"$literal\" && -v")], {"C07": None}),
     V("revert-52ad43c-bash-backslash", [("@revert", "52ad43c")], {"C07": "ENC:bash::make_string_constant"}),
-    V("revert-0f716bf-bash-literal-quotes", [("@revert", "0f716bf")], {"C07": "SK-QUOTE:pattern"}),
+    V("revert-0f716bf-bash-literal-quotes", [("src/bash.rs", 'if [[ $subword == "$literal" && -v "state_transitions[$literal_id]" ]]; then', 'if [[ $subword == $literal && -v "state_transitions[$literal_id]" ]]; then')], {"C07": "SK-QUOTE:pattern"}),
     # ---------------- C16
     V("seed-C16-m1-subword-return-hoisted", [("@patch", "seeded/C16-m1/patch.diff")], {"C16": "LABEL:regex::do_to_dot:Subword"}),
     V("seed-C16-m2-compadd-arm-unescaped", [("@patch", "seeded/C16-m2/patch.diff")], {"C16": "SINK:dfa::do_to_dot"}),
@@ -293,6 +293,76 @@ VARIANTS = [
     V("c03-only-larger-half-requeued", [("src/dfa.rs", "} else if num_states_to_remove <= num_remaining_states {", "} else if num_states_to_remove > num_remaining_states + 1 {")], {"C03": "SKIPS:dfa::do_minimize:guard"}),
     V("c03-trim-keeps-orphans", [("src/dfa.rs", "            if transition.from == starting_state {\n                return true;\n            }\n            if !states_with_input_transition.contains(transition.from)\n                || !states_with_input_transition.contains(transition.to)", "            if transition.from == starting_state {\n                return true;\n            }\n            if !states_with_input_transition.contains(transition.from)\n                && !states_with_input_transition.contains(transition.to)")], {"C03": "SKIPS:dfa::keep_only_states_with_input_transitions"}),
     V("c02-followpos-stops-early", [("src/regex.rs", "                    if !right.nullable(arena) {", "                    if right.nullable(arena) {")], {"C02": "SKIPS:regex::do_followpos"}),
+    # ---------------- behaviour-preserving edits against the round-2 rules (must stay silent)
+    V("benign-conflict-checks-swapped", [("src/dfa.rs", """            if left_literal != right_literal {
+                continue;
+            }
+
+            if left_description == right_description {
+                continue;
+            }
+""", """            if left_description == right_description {
+                continue;
+            }
+
+            if left_literal != right_literal {
+                continue;
+            }
+""")], {"C08": None, "C09": None}),
+    V("benign-encoded-descr-via-local", [("src/zsh.rs", """        writeln!(
+            buffer,
+            r#"    {prefix}descriptions[{id}]={}"#,
+            make_string_constant(descr)
+        )?;""", """        let quoted = make_string_constant(descr);
+        writeln!(buffer, r#"    {prefix}descriptions[{id}]={quoted}"#)?;""")], {"C07": None, "C04": None}),
+    V("benign-rename-descr-set", [("src/fish.rs", "let descrs: IndexSet<Ustr>", "let description_set: IndexSet<Ustr>"), ("src/fish.rs", "for descr in &descrs {", "for descr in &description_set {"), ("src/fish.rs", "let id = descrs.get_index_of(descr).unwrap();", "let id = description_set.get_index_of(descr).unwrap();"), ("src/fish.rs", ".filter_map(|(id, _, description)| descrs.get_index_of(description).map(|d| (*id, d)))", ".filter_map(|(id, _, description)| description_set.get_index_of(description).map(|d| (*id, d)))")], {"C04": None, "C07": None}),
+    V("benign-sort-by-key-reverse", [("src/dfa.rs", """        result.sort_unstable_by(|(left, _), (right, _)| {
+            (left.len(), left).cmp(&(right.len(), right))
+        });
+        result.reverse();""", """        result.sort_by_key(|(literal, _)| std::cmp::Reverse(literal.len()));""")], {"C12": None}),
+    V("benign-extra-skipper-helper", [("src/parse.rs", """fn blanks(input: Span) -> IResult<Span, ()> {
+    let (input, _) = alt((multispace1, comment, form_feed)).parse(input)?;
+    Ok((input, ()))
+}""", """fn plain_space(input: Span) -> IResult<Span, Span> {
+    multispace1(input)
+}
+
+fn blanks(input: Span) -> IResult<Span, ()> {
+    let (input, _) = alt((plain_space, comment, form_feed)).parse(input)?;
+    Ok((input, ()))
+}""")], {"C14": None, "C13": None}),
+    V("benign-dot-label-after-edge", [("src/regex.rs", """        RegexNode::Epsilon => {
+            writeln!(output, r#"{indentation}{node_dot_id}[label="Epsilon"];"#)?;
+            if let Some(parent_dot_id) = parent_dot_id {
+                writeln!(output, r#"{indentation}{parent_dot_id} -> {node_dot_id};"#,)?;
+            }
+        }""", """        RegexNode::Epsilon => {
+            if let Some(parent_dot_id) = parent_dot_id {
+                writeln!(output, r#"{indentation}{parent_dot_id} -> {node_dot_id};"#,)?;
+            }
+            writeln!(output, r#"{indentation}{node_dot_id}[label="Epsilon"];"#)?;
+        }""")], {"C16": None}),
+    V("benign-minimize-rename-locals", [("src/dfa.rs", "let mut worklist = partitions.clone();", "let mut pending = partitions.clone();"), ("src/dfa.rs", "while let Some(group_id) = worklist.iter().next() {\n        let group_id = *group_id;\n        worklist.remove(&group_id);", "while let Some(group_id) = pending.iter().next() {\n        let group_id = *group_id;\n        pending.remove(&group_id);"), ("src/dfa.rs", """                if worklist.contains(&intern_id) {
+                    worklist.remove(&intern_id);
+                    worklist.insert(states_to_remove_intern_id);
+                    worklist.insert(remaining_states_intern_id);
+                } else if num_states_to_remove <= num_remaining_states {
+                    worklist.insert(states_to_remove_intern_id);
+                } else {
+                    worklist.insert(remaining_states_intern_id);
+                }""", """                if pending.contains(&intern_id) {
+                    pending.remove(&intern_id);
+                    pending.insert(states_to_remove_intern_id);
+                    pending.insert(remaining_states_intern_id);
+                } else if num_states_to_remove <= num_remaining_states {
+                    pending.insert(states_to_remove_intern_id);
+                } else {
+                    pending.insert(remaining_states_intern_id);
+                }""")], {"C03": None, "C10": None, "C06": None}),
+    V("revert-7638715-eq-coarser-than-hash", [("@revert", "7638715")], {"C10": "HASHEQ:InpInternPool.store:order", "C09": "HASHEQ:DFA.transitions:order"}),
+    V("revert-3888228-hopcroft-break", [("@revert", "3888228")], {"C03": "SKIPS:dfa::do_minimize:break^0"}),
+    V("seed-C03-m2-trim-and-instead-of-or", [("@patch", "seeded/C03-m2/patch.diff")], {"C03": "SKIPS:dfa::keep_only_states_with_input_transitions"}),
+    V("seed-C03-m3-double-minimisation", [("@patch", "seeded/C03-m3/patch.diff")], {"C03": ""}),
     # ---------------- C10
     V("c10-std-hashset-in-dfa", [("src/dfa.rs", "use hashbrown::{HashMap, HashSet};", "use hashbrown::HashMap;\nuse std::collections::HashSet;")], {"C10": "HASHORD:dfa::dfa_from_regex"}),
     V("c10-env-var", [("src/lib.rs", '    let version = env!("COMPLGEN_VERSION");', '    let version = std::env::var("COMPLGEN_VERSION").unwrap_or_default();')], {"C10": "AMBIENT:signature"}),
